@@ -1,5 +1,5 @@
 ------------------------------- MODULE MCKmer -------------------------------
-(* C10: bounded exhaustive model (pure-function pattern).  Init enumerates the inputs of five
+(* C10: bounded exhaustive model (pure-function pattern).  Init enumerates the inputs of seven
    families; `exp` holds the specification's answers; the invariants state that the
    implementation-shaped definitions equal the declarative ones on the input at hand.
 
@@ -9,6 +9,15 @@
                                                              matches of a list of queries (with
                                                              masks / similarity rules), match_table,
                                                              match_kmer_selection
+                                                             (group 5: reference ids, other-table ids and
+                                                             given positions are uint32 labels at the
+                                                             limits of every width)
+     kind = "similar" symmetric score matrix x threshold -> the similar k-mers of every k-mer, and
+                      (every matrix over a value set, not    match / match_table of a table holding every
+                      only diagonally dominant ones)         k-mer once
+     kind = "seltab"  label ids x label positions x      -> the table built from k-mer selections /
+                      k-mer selections                       explicit positions, counts, lookups,
+                                                             match_kmer_selection, match_table
      kind = "mini"    row of keys x window               -> minimizer positions
      kind = "select"  sequence                           -> minimizers / syncmers / mincode under
                                                              several parameter sets and orders *)
@@ -20,7 +29,9 @@ CONSTANTS KmersLen2,    \* kmers family: sequences over 2 symbols up to this len
           RefLen2,      \* table family, 2 symbols: first reference up to this length
           RefLen3,      \* table family, 3 symbols: reference up to this length
           MiniLen,      \* mini family: rows over 0..3 up to this length
-          SelLen        \* select family: sequences over 2 symbols up to this length (3 symbols: SelLen - 1)
+          SelLen,       \* select family: sequences over 2 symbols up to this length (3 symbols: SelLen - 1)
+          SimLevel,     \* similar family: 1 = quick value sets, 2 = thorough value sets
+          LabelRefLen   \* table group 5: 0 = three fixed first references, n = all over 2 symbols up to length n
 
 VARIABLES kind, inp, exp
 vars == <<kind, inp, exp>>
@@ -55,21 +66,28 @@ Second2 == {<<>>, <<0, 1, 1, 0>>, <<1, 1, 1>>, <<1, 0>>}
 TableGroups ==
   {<<1, s1>> : s1 \in SeqsLen({0, 1}, 1, RefLen2)} \cup {<<2, s1>> : s1 \in SeqsLen({0, 1}, 2, RefLen2)}
   \cup {<<3, s1>> : s1 \in SeqsLen({0, 1}, 2, RefLen2 + 1)} \cup {<<4, s1>> : s1 \in SeqsLen({0, 1, 2}, 1, RefLen3)}
+  \cup {<<5, lab>> : lab \in BoundaryLabels}
+LabelSeqs == IF LabelRefLen = 0 THEN {<<0, 1, 1, 0>>, <<1, 1, 1>>, <<0, 0, 1, 0, 1>>} ELSE SeqsLen({0, 1}, 2, LabelRefLen)
 TableInputsOf(g, s1) ==
   CASE g = 1 ->   \* two symbols, k = 2: all first references, a few second ones
-         {[A |-> 2, sp |-> sp, refs |-> IF s2 = <<>> THEN <<[id |-> 7, seq |-> s1, mask |-> NoneV]>>
+         {[A |-> 2, sp |-> sp, lab |-> FALSE, refs |-> IF s2 = <<>> THEN <<[id |-> 7, seq |-> s1, mask |-> NoneV]>>
                                         ELSE <<[id |-> 7, seq |-> s1, mask |-> NoneV], [id |-> 2, seq |-> s2, mask |-> NoneV]>>] :
             sp \in {<<0, 1>>, <<0, 2>>}, s2 \in Second2}
     [] g = 2 ->   \* ... every single-position mask on the first reference, a masked second reference
-         {[A |-> 2, sp |-> sp, refs |-> <<[id |-> 0, seq |-> s1, mask |-> m1],
+         {[A |-> 2, sp |-> sp, lab |-> FALSE, refs |-> <<[id |-> 0, seq |-> s1, mask |-> m1],
                                           [id |-> 1, seq |-> <<1, 0, 0, 1>>, mask |-> Opt(<<FALSE, TRUE, FALSE, FALSE>>)]>>] :
             sp \in {<<0, 1>>, <<0, 2>>}, m1 \in SingleMasks(Len(s1))}
     [] g = 3 ->   \* two symbols, k = 3
-         {[A |-> 2, sp |-> sp, refs |-> <<[id |-> 3, seq |-> s1, mask |-> m1]>>] :
+         {[A |-> 2, sp |-> sp, lab |-> FALSE, refs |-> <<[id |-> 3, seq |-> s1, mask |-> m1]>>] :
             sp \in {<<0, 1, 2>>, <<0, 1, 3>>}, m1 \in EdgeMasks(Len(s1))}
     [] g = 4 ->   \* three symbols, k = 2
-         {[A |-> 3, sp |-> sp, refs |-> <<[id |-> 5, seq |-> s1, mask |-> m1]>>] :
+         {[A |-> 3, sp |-> sp, lab |-> FALSE, refs |-> <<[id |-> 5, seq |-> s1, mask |-> m1]>>] :
             sp \in {<<0, 1>>, <<1, 2>>}, m1 \in EdgeMasks(Len(s1))}
+    [] g = 5 ->   \* two symbols, k = 2; the reference ids are the boundary label s1 and its successor
+                  \* (so 2^31 - 1 / 2^31, 2^32 - 1 / 0, 2^w - 1 / 2^w share a table)
+         {[A |-> 2, sp |-> <<0, 1>>, lab |-> TRUE,
+           refs |-> <<[id |-> s1, seq |-> r1, mask |-> NoneV], [id |-> ShiftLabel(s1, 1), seq |-> <<1, 0, 0, 1>>, mask |-> NoneV]>>] :
+            r1 \in LabelSeqs}
 
 \* the queries asked of every table: one too short sequence; all sequences of span length
 \* (and one more symbol for two letters) without and with the wide rule; longer ones with all
@@ -82,6 +100,9 @@ Queries(A, sp) ==
      \cup {[q |-> q, mask |-> NoneV, rule |-> r] : q \in longer, r \in 1..3}
      \cup UNION {{[q |-> q, mask |-> m, rule |-> r] : m \in SingleMasks(Len(q)) \ {NoneV}, r \in 1..2} : q \in longer}
 
+\* group 5: the other table's ids are labels as well (first column of match_table)
+OtherRefsLab(lab) ==
+  <<[id |-> ShiftLabel(lab, 6), seq |-> <<0, 1, 1, 0, 0>>, mask |-> NoneV], [id |-> ShiftLabel(lab, 7), seq |-> <<1, 1, 1, 0>>, mask |-> NoneV]>>
 OtherRefs(A) ==
   IF A = 2 THEN <<[id |-> 11, seq |-> <<0, 1, 1, 0, 0>>, mask |-> NoneV], [id |-> 12, seq |-> <<1, 1, 1, 0>>, mask |-> NoneV]>>
   ELSE <<[id |-> 11, seq |-> <<0, 1, 2, 2, 0, 1>>, mask |-> NoneV]>>
@@ -91,10 +112,12 @@ TableExp(x) ==
       T == TableOf(refs, sp)
       rules == Rules(A, k)
       kms == SetToSortSeq(AllKmers(A, k), LAMBDA a, b : KmerCode(a, A) < KmerCode(b, A))
-      U == TableOf(OtherRefs(A), sp)
+      other == IF x.lab THEN OtherRefsLab(refs[1].id) ELSE OtherRefs(A)
+      U == TableOf(other, sp)
       selq == IF A = 2 THEN <<1, 0, 0, 1, 1, 1>> ELSE <<2, 0, 1, 1, 2>>
       selk == Kmers(selq, sp)
-      selp == [i \in DOMAIN selk |-> 5 + 2 * i]
+      \* the positions handed to match_kmer_selection are labels too (group 5: boundary labels)
+      selp == [i \in DOMAIN selk |-> IF x.lab THEN ShiftLabel(refs[1].id, 2 + i) ELSE 5 + 2 * i]
   IN [build    |-> Op_FromSequences(refs, sp),
       T        |-> T,
       k        |-> k,
@@ -112,9 +135,92 @@ TableExp(x) ==
       queries  |-> LET qs == SetToSeq(Queries(A, sp)) IN
                    [i \in DOMAIN qs |-> [q |-> qs[i].q, mask |-> qs[i].mask, rule |-> qs[i].rule,
                                          res |-> Op_Match(T, qs[i].q, qs[i].mask, rules[qs[i].rule], sp)]],
-      other    |-> OtherRefs(A),
+      other    |-> other,
       tmatch   |-> [r \in 1..3 |-> Op_MatchTable(T, U, rules[r]).out],
       sel      |-> [pos |-> selp, kmers |-> selk, out |-> Op_MatchSelection(T, selp, selk).out]]
+
+(* ------------------------------------------------------------------ similar family *)
+(* Every symmetric n x n matrix with entries from a value set (so: rows whose maximum lies off
+   the diagonal, negative diagonals, constant matrices, ... - not a hand-picked matrix), used
+   on an alphabet of A <= n symbols, with every threshold from "all k-mers are similar" to
+   "none is".  A case is [A, n, k, V]. *)
+SymMatrices(n, V) ==
+  LET upper == {p \in (1..n) \X (1..n) : p[1] <= p[2]} IN
+  {[i \in 1..n |-> [j \in 1..n |-> IF i <= j THEN f[<<i, j>>] ELSE f[<<j, i>>]]] : f \in [upper -> V]}
+SimCase(A, n, k, V) == [A |-> A, n |-> n, k |-> k, V |-> V]
+SimCases ==
+  IF SimLevel = 1
+  THEN {SimCase(2, 2, 2, -2..2), SimCase(2, 2, 3, -2..2), SimCase(3, 3, 2, {-1, 2}), SimCase(2, 3, 2, {-1, 2})}
+  ELSE {SimCase(2, 2, 2, -3..3), SimCase(2, 2, 3, -3..3), SimCase(3, 3, 2, {-1, 0, 1, 2}), SimCase(3, 3, 3, {-1, 2}),
+        SimCase(2, 3, 2, {-1, 0, 2}), SimCase(2, 3, 3, {-1, 0, 2})}
+\* smallest / largest entry of the leading A x A block
+BlockEntries(M, A) == {M[x][y] : x, y \in 1..A}
+LeastOf(S) == CHOOSE x \in S : \A y \in S : x <= y
+GreatestOf(S) == CHOOSE x \in S : \A y \in S : x >= y
+ThresholdRange(M, A, k) == (k * LeastOf(BlockEntries(M, A)))..(k * GreatestOf(BlockEntries(M, A)) + 1)
+\* a sequence in which every k-mer occurs exactly once (de Bruijn sequence, written linearly)
+DeBruijn(A, k) ==
+  CASE A = 2 /\ k = 2 -> <<0, 0, 1, 1, 0>>
+    [] A = 2 /\ k = 3 -> <<0, 0, 0, 1, 0, 1, 1, 1, 0, 0>>
+    [] A = 3 /\ k = 2 -> <<0, 0, 1, 0, 2, 1, 1, 2, 2, 0>>
+    [] A = 3 /\ k = 3 -> <<0, 0, 0, 1, 0, 0, 2, 0, 1, 1, 0, 1, 2, 0, 2, 1, 0, 2, 2, 1, 1, 1, 2, 1, 2, 2, 2, 0, 0>>
+ASSUME \A c \in {<<2, 2>>, <<2, 3>>, <<3, 2>>, <<3, 3>>} :
+         LET km == Kmers(DeBruijn(c[1], c[2]), Continuous(c[2])) IN
+         Len(km) = NumCodes(c[1], c[2]) /\ ToSet(km) = AllKmers(c[1], c[2])
+\* some symbol scores higher with another symbol than with itself (the row maximum of the used
+\* block is not on the diagonal)
+Wildcard(M, A) == \E x, y \in 1..A : M[x][y] > M[x][x]
+
+SimilarExp(A, k, M, t) ==
+  LET rule == Opt([M |-> M, t |-> t])
+      kms == SetToSortSeq(AllKmers(A, k), LAMBDA a, b : KmerCode(a, A) < KmerCode(b, A))
+      db == DeBruijn(A, k)
+      refs == <<[id |-> 4, seq |-> db, mask |-> NoneV]>>
+      other == <<[id |-> 9, seq |-> db, mask |-> NoneV]>>
+      T == TableOf(refs, Continuous(k))
+  IN [kmers  |-> kms,
+      sim    |-> [i \in DOMAIN kms |-> SimilarSet(rule, kms[i], A)],
+      refs   |-> refs,
+      other  |-> other,
+      match  |-> Op_Match(T, db, NoneV, rule, Continuous(k)),
+      tmatch |-> Op_MatchTable(T, TableOf(other, Continuous(k)), rule).out,
+      wild   |-> Wildcard(M, A),
+      \* the exact search prunes: some k-mer has a proper, non-empty neighbourhood
+      proper |-> \E a \in AllKmers(A, k) : LET S == SimilarSet(rule, a, A) IN S # {} /\ S # AllKmers(A, k)]
+
+(* ------------------------------------------------------------------ seltab family *)
+(* Tables made from k-mer selections / explicit positions: ids AND positions are labels.  Input:
+   the id label a and the position label p range over all boundary labels; the table holds two
+   references (ids a, a+1) whose selected k-mers sit at positions p, p+1, p+2 resp. p, p+3
+   ("+" = cyclic successor among the boundary labels); the query selection and the other
+   table use further labels. *)
+SelShapes ==
+  <<[A |-> 2, arrays |-> << <<<<0, 1>>, <<1, 1>>, <<0, 1>>>>, <<<<0, 1>>, <<1, 0>>>> >>],
+    [A |-> 2, arrays |-> << <<<<1, 1>>, <<1, 1>>, <<1, 1>>>>, <<<<1, 1>>, <<0, 0>>>> >>],
+    [A |-> 3, arrays |-> << <<<<2, 2>>, <<0, 2>>, <<2, 0>>>>, <<<<2, 2>>, <<1, 1>>>> >>]>>
+SelTabInput(a, p, sh) ==
+  [A |-> SelShapes[sh].A, k |-> 2,
+   ids |-> <<a, ShiftLabel(a, 1)>>,
+   pos |-> << <<p, ShiftLabel(p, 1), ShiftLabel(p, 2)>>, <<p, ShiftLabel(p, 3)>> >>,
+   arrays |-> SelShapes[sh].arrays]
+SelTabExp(x) ==
+  LET A == x.A  k == x.k
+      T == Op_FromSelection(x.pos, x.arrays, x.ids).out
+      kms == SetToSortSeq(AllKmers(A, k), LAMBDA a, b : KmerCode(a, A) < KmerCode(b, A))
+      p == x.pos[1][1]
+      \* query selection: every k-mer once, the first k-mer of the table a second time
+      qk == kms \o <<x.arrays[1][1]>>
+      qp == [i \in DOMAIN qk |-> ShiftLabel(p, 4 + i)]
+      oid == ShiftLabel(x.ids[1], 5)
+  IN [T       |-> T,
+      codes   |-> [i \in DOMAIN kms |-> <<kms[i], KmerCode(kms[i], A)>>],
+      perRef  |-> [r \in DOMAIN x.ids |-> Op_FromSelection(<<x.pos[r]>>, <<x.arrays[r]>>, <<x.ids[r]>>).out],
+      counts  |-> Op_Count(T, kms).out,
+      lookups |-> [i \in DOMAIN kms |-> Op_Lookup(T, kms[i]).out],
+      present |-> Op_GetKmers(T).out,
+      sel     |-> [pos |-> qp, kmers |-> qk, out |-> Op_MatchSelection(T, qp, qk).out],
+      other   |-> [ids |-> <<oid>>, pos |-> <<qp>>, arrays |-> <<qk>>],
+      tmatch  |-> Op_MatchTable(T, Op_FromSelection(<<qp>>, <<qk>>, <<oid>>).out, NoneV).out]
 
 (* ------------------------------------------------------------------ selector families *)
 \* order tables for the 4 k-mers of (A = 2, k = 2): identity, reversed, and a frequency table
@@ -155,6 +261,8 @@ SelectExp(s, A) ==
 Chunks ==
   {<<"kmers", A>> : A \in {2, 3}} \cup {<<"mask", n>> : n \in 2..MaskLen}
   \cup {<<"table", g[1], g[2]>> : g \in TableGroups}
+  \cup UNION {{<<"similar", cs, d>> : d \in cs.V \X cs.V \X cs.V} : cs \in SimCases}   \* d = M[1][1], M[1][2], M[2][2]
+  \cup {<<"seltab", a>> : a \in BoundaryLabels}
   \cup {<<"mini", v, w>> : v \in 0..3, w \in 2..4}
   \cup {<<"select", A, v>> : A \in {2, 3}, v \in {0, 1}}
 
@@ -169,6 +277,15 @@ Expand(c) ==
            NumKmers(Len(m), sp) >= 1 /\ Set("mask", [m |-> m, sp |-> sp], MaskExp(m, sp))
     [] c[1] = "table" ->
          \E x \in TableInputsOf(c[2], c[3]) : Set("table", x, TableExp(x))
+    [] c[1] = "similar" ->
+         LET cs == c[2] IN
+         /\ \E M \in SymMatrices(cs.n, cs.V) :
+              /\ <<M[1][1], M[1][2], M[2][2]>> = c[3]
+              /\ \E t \in ThresholdRange(M, cs.A, cs.k) :
+                   Set("similar", [A |-> cs.A, k |-> cs.k, M |-> M, t |-> t], SimilarExp(cs.A, cs.k, M, t))
+    [] c[1] = "seltab" ->
+         \E p \in BoundaryLabels : \E sh \in DOMAIN SelShapes :
+           LET x == SelTabInput(c[2], p, sh) IN Set("seltab", x, SelTabExp(x))
     [] c[1] = "mini" ->
          \E rest \in SeqsLen(0..3, 0, MiniLen - 1) :
            LET row == <<c[2]>> \o rest IN Set("mini", [row |-> row, w |-> c[3]], MiniExp(row, c[3]))
@@ -232,7 +349,66 @@ InvTable ==
                /\ \A r \in 1..3 :
                     BucketMatchTable(B, BucketAdd(EmptyBuckets(nb), SetToSeq(TableOf(exp.other, sp)), A, nb),
                                      exp.rules[r], A, nb) = exp.tmatch[r]
+               /\ BucketMatchSelection(B, exp.sel.pos, exp.sel.kmers, A, nb) = exp.sel.out
        /\ Dom_Selection(exp.sel.pos, exp.sel.kmers)
+       \* labels pass through unchanged: every reported id is an id of the table / the other table
+       /\ inp.lab =>
+            /\ \A r1 \in DOMAIN inp.refs : Dom_Label(inp.refs[r1].id)
+            /\ \A r2 \in DOMAIN exp.other : Dom_Label(exp.other[r2].id)
+            /\ \A i \in DOMAIN exp.sel.pos : Dom_Label(exp.sel.pos[i])
+            /\ {e[2] : e \in exp.sel.out} \subseteq {inp.refs[r3].id : r3 \in DOMAIN inp.refs}
+            /\ {e[1] : e \in exp.sel.out} \subseteq ToSet(exp.sel.pos)
+
+(* the branch-and-bound search is exact for EVERY symmetric matrix (the bound must be the row
+   maximum), similarity is symmetric, and a k-mer is similar to itself iff its self score
+   reaches the threshold *)
+InvSimilar ==
+  kind = "similar" =>
+    LET A == inp.A  k == inp.k  rule == Opt([M |-> inp.M, t |-> inp.t]) IN
+    /\ Dom_Rule(rule, A)
+    /\ \A i \in DOMAIN exp.kmers :
+         /\ ImplSimilarSet(rule, exp.kmers[i], A) = exp.sim[i]
+         /\ (exp.kmers[i] \in exp.sim[i]) = (Score(inp.M, exp.kmers[i], exp.kmers[i]) >= inp.t)
+         /\ \A j \in DOMAIN exp.kmers : (exp.kmers[j] \in exp.sim[i]) = (exp.kmers[i] \in exp.sim[j])
+    \* the table holds every k-mer once: row (i, ref, j) iff the j-th k-mer is similar to the i-th
+    /\ exp.match.oc = "ok"
+    /\ LET km == Kmers(exp.refs[1].seq, Continuous(k)) IN
+       exp.match.out = {<<i - 1, 4, j - 1>> : <<i, j>> \in {p \in (DOMAIN km) \X (DOMAIN km) : Similar(rule, km[p[1]], km[p[2]])}}
+    /\ \A nb0 \in {3, NumCodes(A, k)} :      \* one bucketed layout and the direct table (all layouts: InvTable)
+         LET nb == EffBuckets(nb0, A, k)
+             B == BucketAdd(EmptyBuckets(nb), SetToSeq(TableOf(exp.refs, Continuous(k))), A, nb)
+         IN /\ BucketMatch(B, exp.refs[1].seq, NoneV, rule, Continuous(k), A, nb) = exp.match.out
+            /\ BucketMatchTable(B, BucketAdd(EmptyBuckets(nb), SetToSeq(TableOf(exp.other, Continuous(k))), A, nb),
+                                rule, A, nb) = exp.tmatch
+
+InvSelTab ==
+  kind = "seltab" =>
+    LET A == inp.A  k == inp.k  T == exp.T  entries == SetToSeq(T) IN
+    /\ \A r \in DOMAIN inp.ids : Dom_Label(inp.ids[r]) /\ \A i \in DOMAIN inp.pos[r] : Dom_Label(inp.pos[r][i])
+    /\ \A x, y \in DOMAIN inp.ids : x # y => inp.ids[x] # inp.ids[y]
+    /\ \A r \in DOMAIN inp.ids : Dom_Selection(inp.pos[r], inp.arrays[r])
+    /\ Dom_Selection(exp.sel.pos, exp.sel.kmers)
+    /\ Cardinality(T) = Len(inp.arrays[1]) + Len(inp.arrays[2])
+    /\ Op_FromTables(exp.perRef).out = T
+    /\ \A i \in DOMAIN exp.codes : exp.counts[i] = Cardinality(exp.lookups[i])
+    /\ exp.present = {exp.codes[i][1] : i \in {j \in DOMAIN exp.codes : exp.counts[j] > 0}}
+    \* labels pass through unchanged
+    /\ {e[2] : e \in exp.sel.out} \subseteq ToSet(inp.ids)
+    /\ {e[3] : e \in exp.sel.out} \subseteq ToSet(inp.pos[1]) \cup ToSet(inp.pos[2])
+    /\ {e[1] : e \in exp.sel.out} \subseteq ToSet(exp.sel.pos)
+    /\ \A nb0 \in Buckets \cup {NumCodes(A, k)} :
+         LET nb == EffBuckets(nb0, A, k)
+             B == BucketAdd(EmptyBuckets(nb), entries, A, nb)
+             Bs == [r \in DOMAIN exp.perRef |-> BucketAdd(EmptyBuckets(nb), SetToSeq(exp.perRef[r]), A, nb)]
+             C == BucketAdd(EmptyBuckets(nb), SetToSeq(Op_FromSelection(exp.other.pos, exp.other.arrays, exp.other.ids).out), A, nb)
+         IN /\ BucketAbs(B) = T
+            /\ BucketAbs(BucketMerge(Bs, nb)) = T
+            /\ BucketUnpickle(BucketPickle(B, nb), nb) = B
+            /\ \A i \in DOMAIN exp.codes :
+                 /\ BucketCount(B, exp.codes[i][1], A, nb) = exp.counts[i]
+                 /\ BucketLookup(B, exp.codes[i][1], A, nb) = exp.lookups[i]
+            /\ BucketMatchSelection(B, exp.sel.pos, exp.sel.kmers, A, nb) = exp.sel.out
+            /\ BucketMatchTable(B, C, NoneV, A, nb) = exp.tmatch
 
 InvMini ==
   kind = "mini" =>
